@@ -334,6 +334,30 @@ func EQZ(t *Term) *Term {
 			return r
 		}
 	}
+	// a term with selector predicates (ite(P, a, b) = 0): decide per truth assignment of the selectors
+	if !t.IsPred() {
+		var sel []*PAtom
+		seen := map[*PAtom]bool{}
+		for _, m := range t.mons {
+			for _, p := range m.preds {
+				if !seen[p] {
+					seen[p] = true
+					sel = append(sel, p)
+				}
+			}
+		}
+		if len(sel) > 0 && len(sel) <= 3 {
+			if r := interp(sel, func(as map[*PAtom]bool) *Term {
+				y := t
+				for p, v := range as {
+					y = y.SubstPred(p, v)
+				}
+				return EQZ(y)
+			}); r != nil {
+				return r
+			}
+		}
+	}
 	if r := eqzSmallSym(t); r != nil {
 		return r
 	}
@@ -632,7 +656,7 @@ func Sub64(x, y, bin *Term) (diff, bout *Term) {
 // as one integer and where eight bytes are read as one word.
 func (t *Term) Recompose() *Term {
 	changed := true
-	for iter := 0; changed && iter < 8; iter++ {
+	for iter := 0; changed && iter < 64; iter++ {
 		changed = false
 		type grp struct {
 			preds []*PAtom
@@ -658,6 +682,20 @@ func (t *Term) Recompose() *Term {
 				gk = fmt.Sprintf("B%d%s|%s", m.atom.Idx/8, monKey(m.preds, nil), m.atom.T.Key())
 				idx = m.atom.Idx % 8
 				g.base = m.atom.T
+			case IWOp:
+				// limb i of a value whose static bounds could not be shown to lie in [0, 2^256) although the value
+				// does (LimbOf's contract): the four limbs recompose to the value
+				if m.atom.Op != "limb" {
+					continue
+				}
+				ix, isC := m.atom.Args[1].IsConst()
+				if !isC {
+					continue
+				}
+				gk = "W" + monKey(m.preds, nil) + "|" + m.atom.Args[0].Key()
+				idx = int(ix.Int64())
+				g.base = m.atom.Args[0]
+				g.kind = ILimb
 			case ICDiff:
 				// family = root chain
 				root := m.atom.Chain
@@ -834,6 +872,17 @@ func limbEq(p *PAtom) (base *Term, other *Term, k *big.Int, idx int, ok bool) {
 		if m.atom == nil {
 			k = m.c
 			continue
+		}
+		if m.atom.Kind == IWOp && m.atom.Op == "limb" && len(p.A.mons) == 1 && m.c.CmpAbs(bigOne) == 0 {
+			// limb i of an integer that may be negative (two's complement, 256 bits): only "all four limbs are
+			// zero" is grouped, and only when |T| < 2^256 (then T = 0 mod 2^256 means T = 0)
+			t := m.atom.Args[0]
+			lo, hi := t.Bounds()
+			ix, isC := m.atom.Args[1].IsConst()
+			if isC && lo.CmpAbs(pow2(256)) < 0 && hi.CmpAbs(pow2(256)) < 0 {
+				return t, nil, new(big.Int), int(ix.Int64()), true
+			}
+			return
 		}
 		if m.atom.Kind != ILimb || m.c.CmpAbs(bigOne) != 0 {
 			return
